@@ -29,6 +29,7 @@ INJECT = {
     "record/partially_serialized.rs": "h_partial.rs",
     "filter/atomic_bitvec.rs": "h_bitvec.rs",
     "filter/bloom.rs": "h_bloom.rs",
+    "filter/ahash/fallback_hash.rs": "h_ahash.rs",
     "filter/range.rs": "h_range.rs",
     "filter/combined.rs": "h_combined.rs",
     "filter/hierarchical.rs": "h_hier.rs",
